@@ -109,6 +109,8 @@ class Interp:
             return value_for(t[1], self.choice)
         if tag == "const":
             return t[1]
+        if tag in ("class", "func", "builtin", "ext"):
+            return ("tok", f"{tag} {t[1]}")  # a named thing of the program: itself
         if tag == "var":
             if t not in env:
                 raise Cannot("unbound variable")
@@ -118,7 +120,13 @@ class Interp:
         if tag in ("pair", "pairacc"):
             return ("pair", self.freeze(self.val(t[1], env)), self.freeze(self.val(t[2], env)))
         if tag == "idx":
-            return ("position", self.freeze(self.val(t[1], env)))  # the model lists have no duplicates: one position per element
+            x = self.freeze(self.val(t[1], env))
+            if len(t) > 3 and t[3] is not None:
+                # position of the element in the enumerated sequence (every sequence over a model set is in the model's one order)
+                seq = [self.freeze(y) for y in self.iterate(self.val(t[3], env) if t[3][0] != "bag" else self.bag(t[3], env, multiset=False))]
+                if x in seq:
+                    return seq.index(x)
+            return ("position", x)  # the model lists have no duplicates: one position per element
         if tag == "dictview":
             # a dict filled by `d[k] = v` stores: a later store to an equal key replaces the earlier one
             store: dict = {}
@@ -184,7 +192,17 @@ class Interp:
             lo, hi, step = (self.val(x, env) for x in t[2:5])
             if lo in (None, 0) and hi is None and step in (None, 1):
                 return v
-            return ("slice", self.freeze(v), lo, hi, step)  # an order-dependent selection: uninterpreted
+            if len(t) > 5 and t[5].startswith("?"):
+                raise Cannot("a slice whose bounds are " + t[5][1:])
+            ints = all(x is None or (isinstance(x, int) and not isinstance(x, bool)) for x in (lo, hi, step))
+            if ints and step != 0 and (isinstance(v, (frozenset, dict)) or (isinstance(v, tuple) and len(v) == 2 and v[0] == "seq")):
+                return frozenset(self.freeze(x) for x in self.iterate(v)[lo:hi:step])  # selected in the model's one order
+            raise Cannot("an order-dependent selection (slice) of a sequence that is not a model collection")
+        if tag == "arith":
+            a, b = self.val(t[2], env), self.val(t[3], env)
+            if isinstance(a, int) and isinstance(b, int):
+                return a + b if t[1] == "+" else a - b
+            return ("arith", t[1], self.freeze(a), self.freeze(b))  # arithmetic on a position: uninterpreted
         if tag == "len":
             v = t[1]
             if v[0] == "bag":
